@@ -32,6 +32,21 @@ def run(ctx):
         first_input = rng.random() < 0.3
         last_output = rng.random() < 0.3
         recs = [gen.node_recipe(rng, k, meta_p=0.05) for k in kinds]
+        if i % 3 == 1:
+            # a *chained* sequence: every node consumes its predecessor's output shape; Conv
+            # input shapes / Flatten input types may be left undefined (legal forms)
+            sh = [rng.randrange(1, 3), rng.randrange(5, 12)] + ([rng.randrange(5, 12)] if rng.random() < 0.6 else [])
+            recs, kinds = [], []
+            for _ in range(rng.randrange(2, 7)):
+                k, rec = gen.node_for_input(rng, sh)
+                o = gen.out_shape_of(k, rec, sh)
+                if recs and rng.random() < 0.6:
+                    if k in ("Conv1d", "Conv2d"):
+                        rec["kwargs"] = [[a, (None if a == "input_shape" else v)] for a, v in rec["kwargs"]]
+                    elif k == "Flatten":
+                        rec["kwargs"] = [[a, (None if a == "input_type" else v)] for a, v in rec["kwargs"]]
+                recs.append(rec); kinds.append(k); sh = o
+            ctx.count("chained")
         if first_input:
             recs = [gen.node_recipe(rng, "Input", meta_p=0.0)] + recs
             kinds = ["Input"] + kinds
